@@ -546,11 +546,40 @@ static void build_defects() {
     mk("xi-text-utf16-be-bom", {{"/v/a.xml", "<a " XI "><xi:include href='t3.txt' parse='text' encoding='UTF-16'/></a>"}});
 }
 
+// ---------------------------------------------------------------- space: deep (five files, inclusion depth >= 3, siblings after a completed deep include)
+// a.xml includes p.xml; p.xml includes q.xml, or q.xml and then any file; q.xml has two includes of any files; r.xml and s.xml are leaves or
+// include any file.  All in one directory, no fallbacks: every loop must be reported, every loop-free assignment must give the merged tree.
+// This is the smallest shape in which an include *completes* at history depth 3 and a later sibling closes a loop through a middle entry.
+static const char* DPATH[] = {"/v/a.xml", "/v/p.xml", "/v/q.xml", "/v/r.xml", "/v/s.xml"};
+static const char* DNAME[] = {"a.xml", "p.xml", "q.xml", "r.xml", "s.xml"};
+static uint64_t deep_total() { return 6ULL * 25 * 6 * 6; }
+static std::string deep_file(int i, int t1, int t2) {   // t < 0: no include
+    std::string r = std::string("<e") + std::to_string(i) + " " XI ">";
+    r += "t" + std::to_string(i);
+    if (t1 >= 0) r += std::string("<xi:include href='") + DNAME[t1] + "'/>";
+    r += "<k/>";
+    if (t2 >= 0) r += std::string("<xi:include href='") + DNAME[t2] + "'/>";
+    return r + "</e" + std::to_string(i) + ">";
+}
+static void deep_case(uint64_t idx, Case& cs) {
+    int s4 = (int)(idx % 6); idx /= 6;
+    int s3 = (int)(idx % 6); idx /= 6;
+    int q = (int)(idx % 25); idx /= 25;
+    int p = (int)idx;
+    cs.label = "deep p" + std::to_string(p) + " q" + std::to_string(q) + " r" + std::to_string(s3) + " s" + std::to_string(s4);
+    cs.files.push_back({DPATH[0], deep_file(0, 1, -1)});
+    cs.files.push_back({DPATH[1], deep_file(1, 2, p == 0 ? -1 : p - 1)});
+    cs.files.push_back({DPATH[2], deep_file(2, q / 5, q % 5)});
+    cs.files.push_back({DPATH[3], deep_file(3, s3 - 1, -1)});
+    cs.files.push_back({DPATH[4], deep_file(4, s4 - 1, -1)});
+}
+
 // ---------------------------------------------------------------- main
 static std::string g_space;
 static bool make_case(uint64_t idx, Case& cs) {
     if (g_space == "graph") return graph_case(idx, cs);
     if (g_space == "defects" || g_space == "manual") { cs = D_cases[idx]; return true; }
+    if (g_space == "deep") { deep_case(idx, cs); return true; }
     opts_case(idx, cs);
     return true;
 }
@@ -587,6 +616,9 @@ int main(int argc, char** argv) {
         extra = "\"bounds\":{\"files\":" + std::to_string(G_files) + ",\"variants_per_file\":[";
         for (int i = 0; i < G_files; i++) extra += (i ? "," : "") + std::to_string(G_var[i].size());
         extra += "]}";
+    } else if (g_space == "deep") {
+        R.total = deep_total();
+        extra = "\"bounds\":{\"files\":5,\"assignments\":" + std::to_string(R.total) + "}";
     } else if (g_space == "manual") {  // debugging aid: --a '<xml>' [--b ...] [--c ...] [--d ...]
         Case c; c.label = "manual"; g_strict = true;
         const char* keys[] = {"a", "b", "c", "d"};
